@@ -399,7 +399,7 @@ func runC16(p *Program, r *Result) {
 		r.Check(ok, wwl.String(), "phase1:add-type", "", "add-identity iff r.identity", "the first message's type is not add-identity exactly when the recipient wraps an identity string")
 	}
 
-	r.Rule("R16.3", "index 0 and no-repeat guards dominate acceptance", 2)
+	r.Rule("R16.3", "index 0 and no-repeat guards dominate acceptance", 4)
 	{
 		// recipient-stanza: the append of the new stanza
 		tb := p.TB(wwl)
@@ -472,6 +472,8 @@ func runC16(p *Program, r *Result) {
 		}
 		r.Check(okf, unw.String(), "accept:file-key", "", "under len(Args) == 1, Atoi ok, index == 0, no key yet", "a file key is accepted without the guards len(Args) == 1, Atoi ok, index == 0 and fileKey == nil (duplicate)")
 	}
+
+	checkPluginLabels(p, r)
 
 	r.Rule("R16.4", "end conditions", 3)
 	{
